@@ -15,21 +15,32 @@ import vlib
 # ---- abstract -> concrete --------------------------------------------------------------------------
 SCHEMES = {
     # abstract segment -> real key segment; scalar / array item n -> value
-    "id": ({"a": "a", "b": "b", "c": "c", "": ""}, lambda n: n),
+    "id": ({"a": "a", "b": "b", "c": "c", "": "", "ab": "ab", "bb": "bb"}, lambda n: n),
     # workspace.encoding is a string setting, workspace.ignoreDir a list of strings (order a<b<c is kept)
     "ws": ({"a": "workspace", "b": "encoding", "c": "ignoreDir", "": ""}, lambda n: "v%d" % n),
+    # tiers "p" / "p3": settings whose NAME is a string prefix of a sibling's name (no dot boundary); the byte order
+    # a < a.b < a.bb < ab of ConfigMerge!Rank is kept.  The third component types the value by the real key it is
+    # stored under (so that well-typed combinations reach the typed Emmyrc): f(n, last key segment, inside an array)
+    "de": ({"a": "diagnostics", "b": "enable", "bb": "enables", "ab": "diagnosticsEx", "": ""}, None,
+           lambda n, key, arr: ["undefined-global", "unused"][n - 1] if arr else n == 1),
+    "dg": ({"a": "diagnostics", "b": "globals", "bb": "globalsRegex", "ab": "diagnosticsEx", "": ""}, lambda n: "v%d" % n),
+    "ca": ({"a": "completion", "b": "autoRequire", "bb": "autoRequireFunction", "ab": "completionEx", "": ""}, None,
+           lambda n, key, arr: n == 1 if key == "autoRequire" and not arr else "v%d" % n),
+    "dc": ({"a": "doc", "b": "privateName", "bb": "privateNames", "ab": "documentColor", "": ""}, lambda n: "v%d" % n),
 }
 
 
-def concrete(val, scheme):
-    segs, sc = SCHEMES[scheme]
+def concrete(val, scheme, key=""):
+    sch = SCHEMES[scheme]
+    segs = sch[0]
+    sc = (lambda n, arr: sch[2](n, key, arr)) if len(sch) > 2 else (lambda n, arr: sch[1](n))
     t = val["t"]
     if t == "s":
-        return sc(val["v"])
+        return sc(val["v"], False)
     if t == "a":
-        return [sc(x) for x in val["v"]]
+        return [sc(x, True) for x in val["v"]]
     if t == "o":
-        return {".".join(segs[s] for s in k): concrete(v, scheme) for k, v in val["v"]}
+        return {".".join(segs[s] for s in k): concrete(v, scheme, segs[k[-1]]) for k, v in val["v"]}
     if t == "n":
         return None
     raise vlib.ToolError("cannot concretise %r" % (val,))
@@ -57,13 +68,27 @@ BAD = [("bad.json", '{"workspace": {"encoding": '), ("missing.json", None), ("ba
 
 
 FORMS = (("id", "id", False), ("ws", "ws", False), ("lua", "ws", True))
+# cases over the sibling-prefix alphabet (tiers "p", "p3"): abstract keys and the real pairs diagnostics.enable /
+# enables, diagnostics.globals / globalsRegex, completion.autoRequire / autoRequireFunction, doc / documentColor
+P_REAL = ("de", "dg", "ca", "dc")
+
+
+def forms_of(idx, case, only):
+    tier = case.get("tier", "q")
+    if tier == "p":      # every real pair, and one of them (rotating) with a file written in Lua
+        forms = (("id", "id", False),) + tuple((s, s, False) for s in P_REAL) + (("lua", P_REAL[idx % 3], True),)
+    elif tier == "p3":   # abstract keys + one real pair (rotating), in JSON or with a file written in Lua
+        forms = (("id", "id", False), (("lua", P_REAL[idx % 3], True) if idx % 2 else (P_REAL[idx % 3], P_REAL[idx % 3], False)))
+    else:
+        forms = FORMS
+    return forms if only is None else (forms[only % len(forms)],)
 
 
 def concrete_cases(idx, case, only=None):
-    """the three concrete forms of an abstract case: id/json, ws/json, ws with one file written in Lua
+    """the concrete forms of an abstract case: id/json, real keys/json, real keys with one file written in Lua
     (only = index of the single form to produce, used when the case list is very long)"""
     out = []
-    for form, scheme, lua in (FORMS if only is None else (FORMS[only],)):
+    for form, scheme, lua in forms_of(idx, case, only):
         files = []
         n = len(case["files"])
         used_lua = False
@@ -158,19 +183,22 @@ def merge_class(cls):
 
 # ---- the merge part (C31 panics, C32 determinism / later-wins / arrays / flat = nested) ------------------------
 def run_merge(ctx, prop):
-    cfgs = ctx.pick(["ConfigMerge_q", "ConfigMerge_q3"], ["ConfigMerge_t", "ConfigMerge_t2", "ConfigMerge_q3"])
+    cfgs = ctx.pick(["ConfigMerge_q", "ConfigMerge_q3", "ConfigMerge_qp", "ConfigMerge_qp3"],
+                    ["ConfigMerge_t", "ConfigMerge_t2", "ConfigMerge_q3", "ConfigMerge_tp", "ConfigMerge_qp3"])
     cases = tlc_cases(ctx, "ConfigMerge", cfgs, "CASE")
     vlib.build(["vh-analysis"])
     conc = []
     all_forms = len(cases) <= 25000     # thorough: one form per case, rotating
     for i, c in enumerate(cases):
-        conc += concrete_cases(i, c, None if all_forms else i % 3)
+        conc += concrete_cases(i, c, None if all_forms else i)
     # cases where only determinism is demanded are the order-sensitive ones: more fresh processes (the Lua form
     # only adds the Lua loader in front of the same merge, it stays in the two base processes)
     if os.environ.get("VERIF_CORRUPT"):  # binding self-test: one wrong expectation must be rejected
         victim = next(c for c in conc if isinstance(c["expect_raw"], dict) and c["expect_raw"])
         victim["expect_raw"] = dict(victim["expect_raw"], corrupted=1)
-    inexact = [c for c in conc if c["expect_raw"] is None and c["form"] != "lua"]
+    # (the sibling-prefix tiers add keys, not orders: their cases stay in the two base processes as well)
+    inexact = [c for c in conc if c["expect_raw"] is None and c["form"] != "lua"
+               and cases[c["idx"]].get("tier") not in ("p", "p3")]
     nproc = ctx.pick(16, 64) if prop == "C32" else ctx.pick(4, 16)
     cap = ctx.pick(10 ** 9, 6000)  # thorough: a seeded sample of the order-sensitive cases goes to the extra processes
     if len(inexact) > cap:
@@ -206,6 +234,8 @@ def run_merge(ctx, prop):
         got = outs[0]["raw"]
         if cc["expect_raw"] is not None:
             what = ("arrays" if cls["arrays"] else "scalar") + "/" + ("mixed-spelling" if cls["mixed"] else "same-spelling")
+            if cls.get("sibling"):  # a later file sets a key whose name is a string prefix of an earlier sibling's name
+                what += "/prefix-sibling"
             if got != cc["expect_raw"]:
                 report("C32/later-wins/" + what, dict(detail, expected=cc["expect_raw"], observed=got))
                 continue
